@@ -76,8 +76,10 @@ def run_tlc(module, cfg, workdir=None, workers=1, env=None, timeout=1800,
                 f.write(cfg)
         else:
             cfgname = cfg
+        # (TLC unpacks its standard modules into java.io.tmpdir on every run: keep
+        #  that inside the work directory, which is removed afterwards)
         jopts = ['-XX:+UseParallelGC', '-XX:ParallelGCThreads=4', '-Xmx6g',
-                 '-Xss16m']
+                 '-Xss16m', f'-Djava.io.tmpdir={workdir}']
         if dfs_queue:
             jopts.append('-Dtlc2.tool.queue.IStateQueue=StateDeque')
         jopts.extend(java_opts)
